@@ -38,12 +38,39 @@ type c15op struct {
 	run   func() string // one library call; returns a digest of everything it returned
 }
 
+// dig digests what one library call returned - and then treats every returned slice as what it
+// is, the caller's own memory: it is overwritten up to its CAPACITY. A result that aliases package
+// state, a fixture, an argument or another result disturbs a later call, which the history and
+// schedule oracles then see.
 func dig(parts ...interface{}) string {
 	h := sha256.New()
 	for _, p := range parts {
 		fmt.Fprintf(h, "%v|", p)
 	}
-	return fmt.Sprintf("%x", h.Sum(nil)[:12])
+	d := fmt.Sprintf("%x", h.Sum(nil)[:12])
+	for _, p := range parts {
+		switch v := p.(type) {
+		case []byte:
+			scribble(v)
+		case ed25519.PublicKey:
+			scribble(v)
+		case ed25519.PrivateKey:
+			scribble(v)
+		case []bool:
+			v = v[:cap(v)]
+			for i := range v {
+				v[i] = false
+			}
+		}
+	}
+	return d
+}
+
+func scribble(b []byte) {
+	b = b[:cap(b)]
+	for i := range b {
+		b[i] = 0xEE
+	}
 }
 
 type c15fix struct {
@@ -243,7 +270,7 @@ func init() {
 // before the library call; the histories over a family therefore present identical slice headers with
 // different contents (and different headers with identical contents when mixed with the main ops).
 
-var reuseFamilies = []string{"X25519BaseReuse", "X25519GenericReuse", "ScalarBaseMultReuse", "VerifyReuse", "SignReuse", "BatchReuse", "NewKeyFromSeedReuse", "EdPublicKeyToX25519Reuse", "VerifyCtxReuse", "OptionsObjectReuse"}
+var reuseFamilies = []string{"X25519BaseReuse", "X25519GenericReuse", "ScalarBaseMultReuse", "VerifyReuse", "SignReuse", "BatchReuse", "NewKeyFromSeedReuse", "EdPublicKeyToX25519Reuse", "VerifyCtxReuse", "OptionsObjectReuse", "OptionsFlagReuse"}
 
 var reuseBuf struct {
 	scalar, point, seed, key, sig []byte
@@ -255,7 +282,7 @@ var reuseBuf struct {
 	ctx                           []byte
 }
 
-var reuseOpts ed25519.Options
+var reuseOpts, reuseFlagOpts ed25519.Options
 
 func reuseInit() {
 	b := &reuseBuf
@@ -280,11 +307,18 @@ func reuseBytes(tag string, v, n int) []byte {
 
 func init() {
 	for _, fam := range reuseFamilies {
-		for v := 0; v < 3; v++ {
+		for v := 0; v < reuseVariants(fam); v++ {
 			fam, v := fam, v
 			c15ops = append(c15ops, c15op{fmt.Sprintf("%s%d", fam, v), nil, func() string { return reuseCall(fam, v) }})
 		}
 	}
+}
+
+func reuseVariants(fam string) int {
+	if fam == "VerifyReuse" {
+		return 4
+	}
+	return 3
 }
 
 func reuseCall(fam string, v int) string {
@@ -314,6 +348,11 @@ func reuseCall(fam string, v int) string {
 		if v == 2 {
 			copy(b.sig, f.batchSig[21])
 		}
+		if v == 3 {
+			// a small-order key in the same key buffer (refused in default mode)
+			copy(b.key, f.soKey)
+			copy(b.sig, f.soSig)
+		}
 		return dig(ed25519.Verify(b.key, b.msg, b.sig))
 	case "VerifyCtxReuse":
 		// same key, message and signature buffers and contents; only the context contents differ
@@ -333,6 +372,23 @@ func reuseCall(fam string, v int) string {
 		cp.Context = "tenant-0003"
 		sg2, e2 := f.priv.Sign(nil, f.msg, &cp)
 		return dig(sg, e, sg2, e2)
+	case "OptionsFlagReuse":
+		// one Options value whose ZIP215Verify flag the caller switches between calls (context unchanged);
+		// 2: a by-value copy of the used value with the flag cleared
+		reuseFlagOpts.Context = "flag-ctx"
+		o := &reuseFlagOpts
+		switch v {
+		case 0:
+			o.ZIP215Verify = true
+		case 1:
+			o.ZIP215Verify = false
+		case 2:
+			cp := reuseFlagOpts
+			cp.ZIP215Verify = false
+			o = &cp
+		}
+		// the identity as key, R = [5]B, S = 5: accepted by ZIP-215 only, whatever the context
+		return dig(ed25519.VerifyWithOptions(f.soKey, f.msg, f.soSig, o), o.ZIP215Verify)
 	case "SignReuse":
 		sd := make([]byte, 32)
 		sd[0], sd[1] = byte(20+v/2), 0x15
@@ -360,6 +416,66 @@ func reuseCall(fam string, v int) string {
 		return dig(all, valid, err)
 	}
 	panic("unknown reuse family " + fam)
+}
+
+// ---- refused verifications (every early exit of verify, under ctx and ph) -----------------------------
+// Each is followed in the histories by "sentinel" calls whose verdict or output would change if the
+// refused call left anything behind (a pooled hash state with a domain prefix in it, a memo).
+
+var refusedKinds = []string{"sig63", "S+L", "key-undecodable", "key-small", "R-small", "R-undecodable"}
+var refusedVariants = []string{"ctx", "ph"}
+var sentinelOps = []string{"VerifyGood", "VerifyCtxGoodOtherKey", "VerifyPhSameCtxAsSignCtx", "VerifyPureOfCtxSignature", "VerifyCtxOfPureSignature", "SignPure", "SignCtx", "Batch4Good"}
+
+func init() {
+	for _, vv := range refusedVariants {
+		for _, kind := range refusedKinds {
+			vv, kind := vv, kind
+			c15ops = append(c15ops, c15op{"Refused/" + vv + "/" + kind, nil, func() string { return refusedCall(vv, kind) }})
+		}
+	}
+	c15ops = append(c15ops, c15op{"VerifyPureOfCtxSignature", nil, func() string {
+		f := fixtures()
+		sig, _ := f.std.Sign(nil, f.msg, &stded.Options{Context: "ctx"})
+		return dig(ed25519.Verify(f.pub, f.msg, sig))
+	}})
+	c15ops = append(c15ops, c15op{"VerifyCtxOfPureSignature", nil, func() string {
+		f := fixtures()
+		return dig(ed25519.VerifyWithOptions(f.pub, f.msg, f.sigPure, &ed25519.Options{Context: "ctx"}))
+	}})
+}
+
+func refusedCall(vv, kind string) string {
+	f := fixtures()
+	so := &stded.Options{Context: "ctx"}
+	o := &ed25519.Options{Context: "ctx"}
+	msg := f.msg
+	if vv == "ph" {
+		so.Hash, o.Hash, msg = crypto.SHA512, crypto.SHA512, f.digest
+	}
+	sig, _ := f.std.Sign(nil, msg, so)
+	key := append([]byte{}, f.pub...)
+	switch kind {
+	case "sig63":
+		sig = sig[:63]
+	case "S+L":
+		S := ref.LE(sig[32:])
+		S.Add(S, ref.L)
+		copy(sig[32:], ref.ToLE(S, 32))
+	case "key-undecodable":
+		key = make([]byte, 32)
+		key[0] = 2
+	case "key-small":
+		key = append([]byte{}, f.soKey...)
+		sig = append([]byte{}, f.soSig...)
+	case "R-small":
+		copy(sig[:32], f.soKey) // the identity as R
+	case "R-undecodable":
+		for i := 0; i < 32; i++ {
+			sig[i] = 0
+		}
+		sig[0] = 2
+	}
+	return dig(ed25519.VerifyWithOptions(key, msg, sig, o))
 }
 
 type failingReader struct{}
@@ -606,7 +722,10 @@ func jobC15hist(c *rt.Ctx) {
 	}
 	nReuse := 0
 	for _, fam := range reuseFamilies {
-		ix := []int{opIx(fam + "0"), opIx(fam + "1"), opIx(fam + "2")}
+		var ix []int
+		for v := 0; v < reuseVariants(fam); v++ {
+			ix = append(ix, opIx(fmt.Sprintf("%s%d", fam, v)))
+		}
 		var genR func(prefix []int)
 		genR = func(prefix []int) {
 			if len(prefix) >= 2 {
@@ -623,6 +742,20 @@ func jobC15hist(c *rt.Ctx) {
 		genR(nil)
 	}
 	c.Require("history/buffer-reuse")
+	// refused verification, then a sentinel (and refused, refused', sentinel in the thorough tier)
+	for _, vv := range refusedVariants {
+		for _, kind := range refusedKinds {
+			for _, sn := range sentinelOps {
+				seqs = append(seqs, []int{opIx("Refused/" + vv + "/" + kind), opIx(sn)})
+				if c.Thorough() {
+					for _, kind2 := range refusedKinds {
+						seqs = append(seqs, []int{opIx("Refused/" + vv + "/" + kind), opIx("Refused/ctx/" + kind2), opIx(sn)})
+					}
+				}
+			}
+		}
+	}
+	c.Require("history/refused-then-sentinel")
 	sort.SliceStable(seqs, func(i, j int) bool { return len(seqs[i]) < len(seqs[j]) })
 	states := map[string]bool{}
 	for _, seq := range seqs {
@@ -635,7 +768,9 @@ func jobC15hist(c *rt.Ctx) {
 			continue
 		}
 		c.Step(len(seq))
-		if strings.Contains(c15ops[seq[0]].name, "Reuse") {
+		if strings.HasPrefix(c15ops[seq[0]].name, "Refused/") {
+			c.Class("history/refused-then-sentinel")
+		} else if strings.Contains(c15ops[seq[0]].name, "Reuse") {
 			c.Class("history/buffer-reuse")
 		} else if len(seq) > deepDepth {
 			c.Class("history/fill-perturb-recheck")
